@@ -123,22 +123,29 @@ def kindBoundErr (s : Stream) (size : Nat) : Option Err :=
   | [] => if s.limited ∧ size > s.remaining then some .valueTooLarge else none
   | (p, sz) :: _ => if size > sz - p then some .elemTooLarge else none
 
+/-- `tos != nil && tos.pos == tos.size` -/
+def atEnd : List (Nat × Nat) → Bool
+  | (p, sz) :: _ => decide (p = sz)
+  | [] => false
+
+/-- the `s.kind < 0` branch of `Kind()`: read the next header and cache it -/
+def sKindFresh (s : Stream) : Res (Kind × Nat) :=
+  let s := { s with kinderr := none }
+  if atEnd s.stack = true then (.error .eol, s)
+  else
+    let r := sReadKind s
+    let err : Option Err := match r.1.2.2 with
+      | some e => some e
+      | none => kindBoundErr r.2 r.1.2.1
+    (match err with | none => .ok (r.1.1, r.1.2.1) | some e => .error e,
+     { r.2 with kind := some r.1.1, size := r.1.2.1, kinderr := err })
+
 /-- `Kind()` -/
 def sKind (s : Stream) : Res (Kind × Nat) :=
   match s.kind with
   | some k =>
     (match s.kinderr with | none => .ok (k, s.size) | some e => .error e, s)
-  | none =>
-    let s := { s with kinderr := none }
-    let atEnd : Bool := match s.stack with | (p, sz) :: _ => decide (p = sz) | [] => false
-    if atEnd then (.error .eol, s)
-    else
-      let ((k, size, err), s) := sReadKind s
-      let err := match err with
-        | some e => some e
-        | none => kindBoundErr s size
-      let s := { s with kind := some k, size := size, kinderr := err }
-      (match err with | none => .ok (k, size) | some e => .error e, s)
+  | none => sKindFresh s
 
 /-- `Bytes()` -/
 def sBytes (s : Stream) : Res Bytes :=
@@ -266,5 +273,31 @@ def sDecodeBytesAny (b : Bytes) : Except Err Item :=
   match sDecodeAny (anyFuel (newStream b b.length)) (newStream b b.length) with
   | (.error e, _) => .error e
   | (.ok it, s) => if s.inp.isEmpty then .ok it else .error .moreThanOne
+
+end Rangers.RLP
+
+namespace Rangers.RLP
+
+/-- The public `Stream` methods, as data (what a caller — a typed decoder, a `DecodeRLP`
+    implementation, the op scripts of the correspondence run — can do to a stream). -/
+inductive SOp
+  | kind | bytes | raw | uint (bits : Nat) | bool | list | listEnd | any
+  deriving Repr
+
+/-- State after one method call (results are dropped; see the individual methods). -/
+def SOp.run (op : SOp) (s : Stream) : Stream :=
+  match op with
+  | .kind => (sKind s).2
+  | .bytes => (sBytes s).2
+  | .raw => (sRaw s).2
+  | .uint bits => (sUint s bits).2
+  | .bool => (sBool s).2
+  | .list => (sList s).2
+  | .listEnd => (sListEnd s).2
+  | .any => (sDecodeAny (anyFuel s) s).2
+
+def runOps : List SOp → Stream → Stream
+  | [], s => s
+  | op :: ops, s => runOps ops (op.run s)
 
 end Rangers.RLP
